@@ -94,8 +94,9 @@ CLAIMED = {
 }
 
 SUFFIX = (' Every implementation call additionally passes the call-hygiene rules of DESIGN.md 3.7 (arguments not modified, results not aliased to internal state, '
-          'repeatable, independent of memory layout and of reused buffers), and the unit list in the evidence file names the threshold-size, value, dtype and '
-          'call-history alphabets that were added after independently seeded changes showed what small-scope enumeration alone misses.')
+          'repeatable, independent of memory layout incl. non-contiguous views and of reused buffers, results not overwritten by a later call of the same shapes), '
+          'and the unit list in the evidence file names the size-threshold, argument-form, value / magnitude, dtype and object- / call-history alphabets that were added '
+          'after independently seeded changes showed what small-scope enumeration alone misses (DESIGN.md 3.7, 3.8).')
 
 PENDING_REASON = 'check not built yet in this revision (planned: DESIGN.md section 4); not claimed until its explorer exists and is silent on the fixed tree'
 
@@ -141,7 +142,7 @@ def main():
                      'kind_free_text': 'hand-written explicit-state explorer for Python: exhaustive scope enumeration (with basis closure for linear maps), '
                                        'level-synchronous BFS over operation histories on real objects with canonical-state deduplication, and fault (truncation) enumeration; 16 worker processes'}],
         'checks': checks,
-        'notes': 'All checks import prysm from /repo\'s working tree in a fresh process (pure Python: nothing to build). known_findings.json lists recorded/fixed defects (about 90 fix: commits in /repo, 1 known finding); replays/ is written at run time; seeded/ holds the independently seeded changes used to validate detection (DESIGN.md 7). Quick tier: <= 40 s per check on 16 idle cores; thorough: <= 9 min (C01, C17, C08 are the long ones).',
+        'notes': 'All checks import prysm from /repo\'s working tree in a fresh process (pure Python: nothing to build). known_findings.json lists recorded/fixed defects (87 fix: commits in /repo, 1 known finding); replays/ is written at run time; seeded/ holds the independently seeded changes used to validate detection (DESIGN.md 7). Quick tier: <= 40 s per check on 16 idle cores; thorough: <= 9 min (C01, C17, C08 are the long ones).',
         'not_applicable': na,
     }
     with open(os.path.join(ROOT, 'MANIFEST.json'), 'w') as f:
